@@ -76,7 +76,7 @@ fn run_one(spec: &RunSpec, prefix: usize, noise: bool, full: bool, progress: &At
     let engine = Arc::new(build_engine(&w));
     let addrs = rule_addresses(&engine, &w.rules);
     let ticket = AtomicUsize::new(0);
-    let order: Vec<AtomicU32> = (0..prefix).map(|_| AtomicU32::new(u32::MAX)).collect();
+    let order: Vec<AtomicU32> = (0..spec.threads * spec.queries).map(|_| AtomicU32::new(u32::MAX)).collect();
     let barrier = Barrier::new(spec.threads);
     let stop_on_panic = AtomicBool::new(false);
     let outs: Mutex<Vec<(usize, ThreadOut)>> = Mutex::new(vec![]);
@@ -185,7 +185,10 @@ fn run_one(spec: &RunSpec, prefix: usize, noise: bool, full: bool, progress: &At
     let mismatches: Vec<Value> = outs.iter().flat_map(|(_, o)| o.mismatches.clone()).collect();
     let mut panics: Vec<Value> = outs.iter().flat_map(|(_, o)| o.panics.clone()).collect();
     panics.extend(seq_panics);
-    let tickets: Vec<u32> = order.iter().map(|a| a.load(Ordering::SeqCst)).take_while(|x| *x != u32::MAX).collect();
+    let all_tickets: Vec<u32> = order.iter().map(|a| a.load(Ordering::SeqCst)).take_while(|x| *x != u32::MAX).collect();
+    // how interleaved the run really was: number of positions where the ticket holder changes
+    let switches = all_tickets.windows(2).filter(|w| w[0] != w[1]).count();
+    let tickets: Vec<u32> = all_tickets.iter().take(prefix).cloned().collect();
     let mut res = json!({
         "seed": spec.seed, "mode": spec.mode.name(), "threads": spec.threads, "queries": spec.queries,
         "rules": w.rules.len(), "optimize": w.optimize,
@@ -193,7 +196,7 @@ fn run_one(spec: &RunSpec, prefix: usize, noise: bool, full: bool, progress: &At
         "conc_digest": conc_digest,
         "mismatches": mismatches, "panics": panics,
         "post_ok": post_ok, "post_msg": post_msg,
-        "tickets": tickets,
+        "tickets": tickets, "ticket_switches": switches, "tickets_total": all_tickets.len(),
         "cache_entries": snap.len(),
         "cache_compiled": snap.iter().filter(|e| e.1).count(),
         "cache_usage_total": snap.iter().map(|e| e.3).sum::<usize>(),
